@@ -91,8 +91,8 @@ class Ctx:
             if cb["key"] in force or (force == "*" and cb["key"] not in skip):
                 return True
             return cb["key"] not in skip and cb["key"] not in api and not (cb.get("vis") or {}).get("exported", True)
-        from .mirxf import desugar_option_calls
-        return desugar_option_calls(db, inline_calls(db, b, pred))
+        from .mirxf import desugar_option_calls, desugar_range_calls, desugar_result_map
+        return desugar_result_map(db, desugar_range_calls(db, desugar_option_calls(db, inline_calls(db, b, pred))))
 
     def analysis_inl(self, cfg, key, entry_facts=None, split=False, keep=(), tag="", force=()):
         """Analysis of `key` with the crate's private (non-exported, unmodelled) helper functions inlined at their call sites,
@@ -175,6 +175,12 @@ class Ctx:
 
     def floor(self, rule, what, found, floor):
         self.ob(rule + ".floor", what, found >= floor, "instances matched: %d, floor (counted on the reviewed tree): %d" % (found, floor))
+
+    def note(self, text):
+        """Something the run did NOT decide (recorded in the evidence under coverage.extra.not_decided, never an alarm)."""
+        self.extra.setdefault("not_decided", [])
+        if text not in self.extra["not_decided"]:
+            self.extra["not_decided"].append(text)
 
     def sample(self, s):
         if len(self.samples) < 40:
